@@ -482,7 +482,16 @@ var Faults = []Fault{
 		if !ok {
 			return false
 		}
-		tv.set(val(m.VInt, c.R.Pick("2147483648", "-2147483649", "3000000000", "99999999999")))
+		tv.set(val(m.VInt, c.R.Pick("2147483648", "-2147483649", "3000000000", "99999999999", "99999999999999999999", "-829384293849283498239482938")))
+		return true
+	}},
+	{"float-out-of-range", "ValuesOfCorrectType", func(c *FCtx) bool {
+		// the reference abstains on float overflow (C08 does not judge it); other monitors still see the library's errors
+		tv, ok := c.pickValue(func(tv typedValue, td *tsys.Def) bool { return isBuiltinScalar(td, "Float", "Int") && namedLeaf(tv) })
+		if !ok {
+			return false
+		}
+		tv.set(val(m.VFloat, c.R.Pick("1e999", "-1.5E+400")))
 		return true
 	}},
 	{"unknown-enum-value", "ValuesOfCorrectType", func(c *FCtx) bool {
